@@ -127,6 +127,11 @@ fn value(t: &[String], n: u32) -> String {
 pub fn render(c: &Cell) -> Rendered {
     let mut lines: Vec<String> = PRELUDE8.lines().map(|s| s.to_string()).collect();
     let mut params: Vec<String> = Vec::new();
+    if c.pre == "f_first" {
+        // a function with a body BEFORE the declaration of the base (tenth round of seeded changes: what the analyzer remembers
+        // about declarations must not depend on a function that was analysed in between)
+        lines.extend(["fn t0()", "{", "\tvar q0: i32 = 1i32;", "\tq0 = 2i32;", "}"].iter().map(|s| s.to_string()));
+    }
     if c.kind == "const" {
         lines.push(format!("const b: {} = {};", syntax(&c.d), value(&c.d, 1)));
     }
